@@ -58,15 +58,15 @@ def liftC {α} : Except Coin.Err α → Except Err α
   | .ok a => .ok a
   | .error e => .error (.coin e)
 
-/-- `sp.stake()`: checked sum of the balances. -/
-def stakeOf : List DP → Except Err Nat
-  | [] => .ok 0
-  | dp :: rest => do
-    let s ← stakeOf rest
-    liftC (addCoin s dp.balance)
+/-- `sp.stake()`: checked left-to-right sum of the balances (stakepool.go:685-695). -/
+def stakeAux : List DP → Nat → Except Err Nat
+  | [], s => .ok s
+  | dp :: rest, s => do
+    let s' ← liftC (addCoin s dp.balance)
+    stakeAux rest s'
 
-/-- NB Go sums left to right; overflow of a sum of naturals does not depend on the order, and only the error
-class is observable, so the right fold is the same function (`Proofs/StakePool.stakeOf_eq`). -/
+def stakeOf (ps : List DP) : Except Err Nat := stakeAux ps 0
+
 def sumBalances (ps : List DP) : Nat := (ps.map (·.balance)).sum
 
 /-- The proportional loop (`for _, id := range orderedPoolIds { … }`), stakepool.go:647-667 / :463-481.
